@@ -112,6 +112,9 @@ def check(solver, kind='query', name=None):
 # ------------------------------------------------------------------------------------------------ path context
 
 
+INCR_MS = 4000
+
+
 class Ctx:
     """state of one execution path"""
 
@@ -124,7 +127,8 @@ class Ctx:
         self.alts = []  # positions where the other branch is feasible too
         self.assume = []  # preconditions added by the harness
         self.solver = z3.Solver()
-        self.solver.set('timeout', timeout_ms)
+        self.timeout_ms = timeout_ms
+        self.solver.set('timeout', min(timeout_ms, INCR_MS))
         self.fresh = 0
         self.obs = {}
         self.concolic = concolic  # None or a z3 model-like callable term->bool for steering without queries
@@ -139,6 +143,21 @@ class Ctx:
         self.fresh += 1
         return f'{base}!{self.fresh}'
 
+    def feasible(self, t):
+        """is (preconditions and path condition and t) satisfiable?  The incremental solver answers the many easy queries; when it gives up within
+        its short budget the same query goes to a fresh solver with the full budget (with preprocessing: measured 2 s against 165 s on the
+        restol comparisons of C01 whose coefficients are 500-digit rationals)."""
+        self.solver.push()
+        self.solver.add(t)
+        r = check(self.solver, 'feasibility')
+        self.solver.pop()
+        if r == 'unknown' and self.timeout_ms > INCR_MS:
+            s = z3.Solver()
+            s.set('timeout', self.timeout_ms)
+            s.add(self.assume + self.pc + [t])
+            r = check(s, 'feasibility-fresh')
+        return r
+
     def decide(self, t):
         """make the boolean term t concrete on this path"""
         t = z3.simplify(t)
@@ -149,14 +168,8 @@ class Ctx:
         if self.pos < len(self.prefix):
             v = self.prefix[self.pos]
         else:
-            self.solver.push()
-            self.solver.add(t)
-            ft = check(self.solver, 'feasibility')
-            self.solver.pop()
-            self.solver.push()
-            self.solver.add(z3.Not(t))
-            ff = check(self.solver, 'feasibility')
-            self.solver.pop()
+            ft = self.feasible(t)
+            ff = self.feasible(z3.Not(t))
             if ft == 'unknown' or ff == 'unknown':
                 raise Inconclusive(f'feasibility query unknown for {t}')
             if ft == 'sat' and ff == 'sat':
